@@ -347,6 +347,11 @@ class ClassModel:
     def __or__(self, o): return self      # typing unions in annotations evaluated at runtime
     def __ror__(self, o): return self
 
+    def __getattr__(self, k):
+        if k.startswith('__') and k.endswith('__'):
+            raise AttributeError(k)
+        return get_attr(self, k)
+
     # ---- construction
     def __call__(self, *args, **kw):
         fields = self.all_fields()
